@@ -3,7 +3,7 @@
 
    Text is a sequence of one-character strings.  Placeholders: "T" = TAB, "U" and "W"
    = two multi-byte characters (mapped by the harness).  A *tagged character* is
-   <<c, q>> with q \in {"bare","sq","dq","esc","exp"}: how the character came to be
+   <<c, q>> with q \in {"bare","sq","dq","dqe","esc","exp"}: how the character came to be
    in the word (unquoted, inside single quotes, inside double quotes, after a
    backslash, produced by an expansion).
 
@@ -73,7 +73,7 @@ StepR(s, c) ==
                              ELSE IF c = "\\" THEN [s EXCEPT !.mode = "DE"]
                              ELSE [s EXCEPT !.cur = Append(@, <<c, "dq">>)]
          [] s.mode = "DE" -> IF c \in {"\"", "\\", "$", "`"}
-                             THEN [s EXCEPT !.mode = "D", !.cur = Append(@, <<c, "dq">>)]
+                             THEN [s EXCEPT !.mode = "D", !.cur = Append(@, <<c, "dqe">>)]   \* escaped inside double quotes
                              ELSE [s EXCEPT !.mode = "D", !.cur = @ \o << <<"\\", "dq">>, <<c, "dq">> >>]
          [] s.mode = "E"  -> [s EXCEPT !.mode = "U", !.cur = Append(@, <<c, "esc">>), !.have = TRUE]
          [] s.mode = "U"  ->
